@@ -34,11 +34,13 @@ pub fn struct_(ctx: &Context, input: &DeriveInput, local: bool) -> TokenStream {
         let tag_type = ctx.info.tag_type.as_ref().unwrap();
         let vis = if !local { Some(&input.vis) } else { None };
         let tag = ctx.idents.tag.as_ref().unwrap();
+        // Keep explicit discriminants: the tag helper must have the same values as the enum itself.
         let variants = data.variants.iter().fold(quote! {}, |accum, var| {
             let ident = &var.ident;
+            let discriminant = var.discriminant.as_ref().map(|(_, expr)| quote! { = #expr });
             quote! {
                 #accum
-                #ident,
+                #ident #discriminant,
             }
         });
         let bytes_ident = quote! {__flatty_bytes};
